@@ -49,8 +49,48 @@ class Result(object):
         self.stuck = False
 
 
-def owner(framing, context, **opts):
-    """duck-typed server object (what the handlers read from self.server)"""
+class _NoBind(object):
+    """construct a socketserver-based server object without creating a socket: the base class initialiser is replaced by a stub
+    for the duration of the call, so that only pymodbus' own constructor code (defaults, option plumbing, context handling) runs"""
+
+    def __init__(self, base):
+        self.base = base
+
+    def __enter__(self):
+        self.old = self.base.__init__
+
+        def stub(srv, address, handler, *a, **k):
+            srv.server_address, srv.RequestHandlerClass, srv.socket = address, handler, None
+        self.base.__init__ = stub
+        return self
+
+    def __exit__(self, *a):
+        self.base.__init__ = self.old
+        return False
+
+
+def owner(framing, context, front=None, **opts):
+    """the server object the handlers read their configuration from (self.server).  Wherever the real constructor can run without
+    a socket it is used (sync TCP / UDP / serial, asyncio TCP), so that its own code - defaults, keyword plumbing, `context or
+    default` - is part of what the checks exercise; the asyncio UDP server cannot be constructed on this interpreter
+    (create_datagram_endpoint no longer takes reuse_address) and keeps the duck-typed stand-in."""
+    import socketserver
+    kw = {k: opts[k] for k in ('broadcast_enable', 'ignore_missing_slaves') if k in opts}
+    if front == 'sync-tcp':
+        with _NoBind(socketserver.ThreadingTCPServer):
+            return sy.ModbusTcpServer(context, framer=FRAMER[framing], address=('127.0.0.1', 0), **kw)
+    if front == 'sync-udp':
+        with _NoBind(socketserver.ThreadingUDPServer):
+            return sy.ModbusUdpServer(context, framer=FRAMER[framing], address=('127.0.0.1', 0), **kw)
+    if front == 'sync-serial':
+        return sy.ModbusSerialServer(context, framer=FRAMER[framing], port='/dev/vmon-no-such-port', timeout=0.01, **kw)
+    if front == 'aio-tcp':
+        srv = aio.ModbusTcpServer(context, framer=FRAMER[framing], address=('127.0.0.1', 0), loop=_loop(), **kw)
+        try:
+            srv.server_factory.close()             # the listening socket is never created
+        except Exception:  # noqa
+            pass
+        return srv
     return types.SimpleNamespace(framer=FRAMER[framing], decoder=ServerDecoder(), context=context, threads=[],
                                  broadcast_enable=opts.get('broadcast_enable', False),
                                  ignore_missing_slaves=opts.get('ignore_missing_slaves', False),
@@ -112,32 +152,94 @@ def _loop():
     return _LOOP[0]
 
 
+STALL_SECONDS = 20.0       # a front-end call that normally takes microseconds
+STALL_COUNT = [0]          # stalls seen in this process (callers stop exploring after a few: each costs STALL_SECONDS)
+
+
+_TICKS = [0]
+_TICKER = [None]
+
+
+def _ticker():
+    import time as _t
+    while True:
+        _t.sleep(0.1)
+        _TICKS[0] += 1
+
+
+class _Stall(object):
+    """wall-clock guard around one in-process front-end run: a handler that blocks (e.g. on a lock nobody releases) is interrupted
+    by SIGALRM -> KeyboardInterrupt (lock acquisition is interruptible) and the run is marked stuck + stalled.  To tell a blocked
+    main thread from a frozen process (suspended VM, overloaded machine) a background ticker thread counts tenths of a second: the
+    guard only fires when the ticker ran for (most of) the guard period while the main thread made no progress; otherwise it re-arms.
+    Main thread only; elsewhere it is a no-op."""
+    fired = False
+
+    def __enter__(self):
+        import signal
+        import threading
+        self.on = threading.current_thread() is threading.main_thread()
+        if self.on:
+            if _TICKER[0] is None:
+                _TICKER[0] = threading.Thread(target=_ticker, name='vmon-ticker', daemon=True)
+                _TICKER[0].start()
+            self.t0 = _TICKS[0]
+            self.old = signal.signal(signal.SIGALRM, self._fire)
+            signal.setitimer(signal.ITIMER_REAL, STALL_SECONDS)
+        return self
+
+    def _fire(self, *a):
+        import signal
+        if _TICKS[0] - self.t0 < 7 * STALL_SECONDS:          # (10 ticks per second when the process really runs)
+            self.t0 = _TICKS[0]
+            signal.setitimer(signal.ITIMER_REAL, STALL_SECONDS)
+            return
+        self.fired = True            # (the sync handlers have a bare `except:` that swallows the interrupt: the flag is what counts)
+        raise KeyboardInterrupt('front-end call did not return within %.0f s' % STALL_SECONDS)
+
+    def __exit__(self, *a):
+        import signal
+        if self.on:
+            signal.setitimer(signal.ITIMER_REAL, 0)
+            signal.signal(signal.SIGALRM, self.old)
+        return False
+
+
 def feed(front, framing, context, reads, **opts):
+    if STALL_COUNT[0] >= 8:
+        # every stall costs STALL_SECONDS of wall clock: stop the run (the driver reports what was found so far)
+        raise RuntimeError('front-end calls keep blocking (%d stalls of %.0f s): run abandoned' % (STALL_COUNT[0], STALL_SECONDS))
     res = Result()
+    res.stalled = False
+    guard = _Stall()
     try:
-        if front == 'sync-tcp':
-            _sync_tcp(res, framing, context, reads, opts)
-        elif front == 'sync-serial':
-            _sync_serial(res, framing, context, reads, opts)
-        elif front == 'sync-udp':
-            _sync_udp(res, framing, context, reads, opts)
-        elif front in ('aio-tcp', 'aio-udp'):
-            loop = _loop()
-            loop.run_until_complete((_aio_tcp if front == 'aio-tcp' else _aio_udp)(res, framing, context, reads, opts))
-        elif front == 'tw-tcp':
-            _tw_tcp(res, framing, context, reads, opts)
-        elif front == 'tw-udp':
-            _tw_udp(res, framing, context, reads, opts)
-        else:
-            raise ValueError(front)
-    except KeyboardInterrupt:
+        with guard:
+            if front == 'sync-tcp':
+                _sync_tcp(res, framing, context, reads, opts)
+            elif front == 'sync-serial':
+                _sync_serial(res, framing, context, reads, opts)
+            elif front == 'sync-udp':
+                _sync_udp(res, framing, context, reads, opts)
+            elif front in ('aio-tcp', 'aio-udp'):
+                loop = _loop()
+                loop.run_until_complete((_aio_tcp if front == 'aio-tcp' else _aio_udp)(res, framing, context, reads, opts))
+            elif front == 'tw-tcp':
+                _tw_tcp(res, framing, context, reads, opts)
+            elif front == 'tw-udp':
+                _tw_udp(res, framing, context, reads, opts)
+            else:
+                raise ValueError(front)
+    except KeyboardInterrupt as e:
         res.stuck = True
+    if guard.fired:
+        res.stuck = res.stalled = True               # wall-clock guard (callers repeat the case once before judging it)
+        STALL_COUNT[0] += 1
     return res
 
 
 # ------------------------------------------------------------------ sync
 def _sync_tcp(res, framing, context, reads, opts):
-    srv = owner(framing, context, **opts)
+    srv = owner(framing, context, 'sync-tcp', **opts)
     sock = FakeSock(reads, res)
     try:
         sy.ModbusConnectedRequestHandler(sock, PEER, srv)      # setup(), handle(), finish()
@@ -147,7 +249,7 @@ def _sync_tcp(res, framing, context, reads, opts):
 
 
 def _sync_serial(res, framing, context, reads, opts):
-    srv = owner(framing, context, **opts)
+    srv = owner(framing, context, 'sync-serial', **opts)
     sock = FakeSock(reads, res, serial=True)
     h = sy.CustomSingleRequestHandler(sock, ('dev', 'dev'), srv)
     sock.handler = h
@@ -159,7 +261,7 @@ def _sync_serial(res, framing, context, reads, opts):
 
 
 def _sync_udp(res, framing, context, reads, opts):
-    srv = owner(framing, context, **opts)
+    srv = owner(framing, context, 'sync-udp', **opts)
     peers, k = opts.get('peers') or [], -1
     for dg in reads:
         if callable(dg):
@@ -211,7 +313,7 @@ async def _drain(h, limit=200):
 
 
 async def _aio_tcp(res, framing, context, reads, opts):
-    srv = owner(framing, context, **opts)
+    srv = owner(framing, context, 'aio-tcp', **opts)
     h = aio.ModbusConnectedRequestHandler(srv)
     tr = FakeTransport(res)
     h.connection_made(tr)
@@ -376,7 +478,7 @@ def feed_multi(front, framing, context, conns, order, **opts):
         return results
     if front == 'aio-tcp':
         async def go():
-            srv = owner(framing, context, **opts)
+            srv = owner(framing, context, "aio-tcp", **opts)
             hs = []
             for res in results:
                 h = aio.ModbusConnectedRequestHandler(srv)
@@ -396,7 +498,7 @@ def feed_multi(front, framing, context, conns, order, **opts):
         return results
     if front in ('sync-tcp', 'sync-serial'):
         from .doubles.sched import Sched
-        srv = owner(framing, context, **opts)
+        srv = owner(framing, context, front, **opts)
         plan = list(order)
         state = {'warm': list(range(len(conns)))}
 
@@ -410,6 +512,35 @@ def feed_multi(front, framing, context, conns, order, **opts):
                 want = 'C%d' % plan.pop(0) if plan else cands[0]
             return cands.index(want) if want in cands else 0
         chooser.wants_names = True
+        fine = opts.get('fine_seed')
+        if fine is not None:
+            # fine-grained mode: every source line of the framers / sync handlers / decoder / datastore executed by a handler
+            # thread is a pre-emption point, and a seeded random chooser picks who runs next (runs of several lines)
+            import random as _random
+            import sys as _sys
+            rnd = _random.Random(fine)
+            fstate = {'cur': None, 'left': 0}
+
+            def chooser(step, cands):                  # noqa: F811
+                if fstate['cur'] in cands and fstate['left'] > 0:
+                    fstate['left'] -= 1
+                    return cands.index(fstate['cur'])
+                fstate['cur'] = rnd.choice(cands)
+                fstate['left'] = rnd.choice([0, 1, 2, 3, 5, 8, 13, 40])
+                return cands.index(fstate['cur'])
+            chooser.wants_names = True
+
+            def _local(frame, event, arg):
+                if event == 'line':
+                    sched.yield_point(('line', None))
+                return _local
+
+            def _tracer(frame, event, arg):
+                fn = frame.f_code.co_filename
+                if '/pymodbus/framer/' in fn or fn.endswith('/pymodbus/server/sync.py') or fn.endswith('/pymodbus/factory.py') \
+                        or '/pymodbus/datastore/' in fn or fn.endswith('/pymodbus/pdu.py'):
+                    return _local
+                return None
         sched = Sched(chooser)
 
         class GatedSock(FakeSock):
@@ -431,6 +562,8 @@ def feed_multi(front, framing, context, conns, order, **opts):
             sock = GatedSock(i, res)
 
             def body(sock=sock, res=res):
+                if fine is not None:
+                    _sys.settrace(_tracer)
                 try:
                     if front == 'sync-tcp':
                         sy.ModbusConnectedRequestHandler(sock, PEER, srv)
@@ -441,7 +574,7 @@ def feed_multi(front, framing, context, conns, order, **opts):
                 except Exception as e:  # noqa
                     res.escaped.append(e)
             sched.spawn('C%d' % i, body)
-        st = sched.run()
+        st = sched.run(max_steps=400000 if fine is not None else 20000, wall_timeout=60.0 if fine is not None else 20.0)
         if st != 'OK':
             for res in results:
                 res.stuck = True
